@@ -283,6 +283,38 @@ func genWrap(g *core.G) {
 		emitInst(rc, v)
 	}
 
+	// ---- String: the signature and the format-less scalar cases (formatting itself is C20's) ----
+	strRecvs := []sx.Sexp{tStr.sexp(), tStr2.sexp(), tStr13.sexp(), (&ty{tag: "str", lo: i64(0), hi: i64(0)}).sexp(), sx.T("init", tStr.sexp()), sx.T("init", tStr13.sexp()), tOpt(tStr).sexp()}
+	plain := []sx.Sexp{sv(""), sv("a"), sv("ab"), sv("abc"), sv("abcd"), sv("é"), sv("éé"), sv("3"), iv(0), iv(3), iv(-12), iv(123), iv(1234), iv(9223372036854775807), iv(-9223372036854775808), bv(true), bv(false), sx.T("u"), sx.T("d")}
+	illSecond := []sx.Sexp{iv(4), sv(""), bv(true), sx.T("u"), av(), hmap(sv("a"), sv("%d")), fv(1)}
+	for _, rc := range strRecvs {
+		emitNew(rc, nil)
+		for _, v := range plain {
+			emitNew(rc, []sx.Sexp{v})
+			for _, f := range illSecond {
+				emitNew(rc, []sx.Sexp{v, f})
+			}
+			emitNew(rc, []sx.Sexp{v, sx.T("d"), sx.T("d")})
+		}
+	}
+	for _, v := range plain {
+		for _, t := range []*ty{tStr, tStr2, tStr13, tOpt(tStr2)} {
+			emitCo(t.sexp(), v) // a container would need the formatting machinery (not modelled here)
+		}
+		for _, t := range []*ty{tArr(tStr), tHash(tStr, tInt, 0, nil), mkStruct("a", false, tStr13)} {
+			emitCo(t.sexp(), v)
+			emitCo(t.sexp(), av(v, iv(7)))
+			emitCo(t.sexp(), hmap(v, v))
+			emitCo(t.sexp(), hmap(sv("a"), v))
+		}
+	}
+	for _, ia := range [][]sx.Sexp{nil, {sv("%x")}, {sx.T("d")}, {hmap()}, {iv(1)}, {sv("")}, {sv("%d"), sv("%d")}} {
+		rc := sx.T("init", append([]sx.Sexp{tStr.sexp()}, ia...)...)
+		for _, v := range instVals {
+			emitInst(rc, v)
+		}
+	}
+
 	// ---- coerce ----
 	sA := mkStruct("a", false, tInt)
 	sAB := mkStruct("a", false, tInt, "b", true, tFlt)
